@@ -11,6 +11,7 @@ mod c15;
 mod c13;
 mod c09;
 mod c16;
+mod c17;
 mod c18;
 mod c19;
 mod world;
@@ -28,6 +29,10 @@ fn main() {
     if args.len() >= 5 && args[1] == "C19-child" {
         std::panic::set_hook(Box::new(|_| {}));
         c19::child(&args[2..]);
+        return;
+    }
+    if args.len() >= 4 && args[1] == "C17-child" {
+        c17::child(&args[2..]);
         return;
     }
     if args.len() < 5 {
@@ -49,6 +54,7 @@ fn main() {
         "C11" => c11::run(tier, seed, outdir),
         "C15" => c15::run(tier, seed, outdir),
         "C14" => c14::run(tier, seed, outdir),
+        "C17" => c17::run(tier, seed, outdir),
         "C18" => c18::run(tier, seed, outdir),
         "C19" => c19::run(tier, seed, outdir),
         "C09" => c09::run(tier, seed, outdir),
